@@ -267,3 +267,191 @@ def check_C01(work, args):
 def check_C02(work, args):
     tree_check(work, 'C02', k3.oracle_c02,
                'well-formed tree: refinement of the abstract builder for all valid histories (Props/C02.v) + K1/K3 + direct structural oracle')
+
+
+# ------------------------------------------------------------------ C09 / C10 / C14 (analysis properties)
+
+def repo_grammar_texts():
+    out = []
+    for pat in ('tests/frontend/*.llw', 'examples/*/src/*.llw', 'src/frontend/*.llw'):
+        for f in sorted(glob.glob(os.path.join(lv.REPO, pat))):
+            try:
+                out.append((os.path.relpath(f, lv.REPO), open(f).read()))
+            except Exception:
+                pass
+    return out
+
+
+def analysis_inputs(ck, work, n_small, n_gen):
+    """list of (label, text): corpus, repo grammars, random small unconstrained, random mostly-LL(1)"""
+    texts = []
+    for f in sorted(glob.glob(os.path.join(lv.VERIF, 'corpus', 'analysis_*.llw'))):
+        texts.append(('corpus:' + os.path.basename(f), open(f).read()))
+    texts += [('repo:' + n, t) for n, t in repo_grammar_texts()]
+    for i in range(n_small):
+        texts.append(('small', gen_grammar.gen_small(ck.rng).text()))
+    for i in range(n_gen):
+        texts.append(('gen', gen_grammar.Gen(ck.rng, dict(unique_lead=ck.rng.choice([0.0, 0.4, 0.75]))).grammar().text()))
+    paths = []
+    for i, (lab, t) in enumerate(texts):
+        p = os.path.join(work, 'a%d.llw' % i)
+        open(p, 'w').write(t)
+        paths.append(p)
+    return texts, paths
+
+
+def analysis_check(work, pid, level_text):
+    import k2
+    import textbook
+    ck = lv.Check(pid, 'proof')
+    quick = ck.tier == 'quick'
+    st = proof_step(ck, pid)
+    lv.build_impl(bins=False)
+    texts, paths = analysis_inputs(ck, work, 2500 if quick else 40000, 400 if quick else 4000)
+    if not quick:
+        import enum_small
+        for t in enum_small.enumerate_grammars():
+            p = os.path.join(work, 'e%d.llw' % len(paths))
+            open(p, 'w').write(t)
+            texts.append(('exhaustive', t))
+            paths.append(p)
+    res = lv.harness_sema(paths)
+    kinds = collections.Counter()
+    failures = []
+    k2_todo = []
+    evals = 0
+    distinct = set()
+    samples = []
+    for (lab, text), r in zip(texts, res):
+        src = lab.split(':')[0]
+        if r.get('panic'):
+            kinds['panic'] += 1
+            if pid == 'C09':
+                failures.append({'grammar': text, 'what': 'semantic analysis panicked'})
+            continue
+        d = r.get('dump')
+        if not d or not d['sema']['sets']:
+            kinds[src + '/no-sets(name resolution or syntax errors)'] += 1
+            continue
+        accepted = r['accepted']
+        try:
+            if k2.count_nodes(d) <= k2.MAX_NODES:
+                sx, ids = k2.grammar_sexp(d)
+                k2_todo.append((text, r, sx, ids))
+            else:
+                kinds['too-big-for-K2'] += 1
+        except k2.Unresolved:
+            pass
+        g = textbook.Grammar(d)
+        if not g.is_reduced():
+            kinds[src + '/not-reduced'] += 1
+            continue
+        g.analyse()
+        evals += 1
+        kinds[src + ('/accepted' if accepted else '/rejected')] += 1
+        codes = [x['code'] for x in r['diags']]
+        if any(c in ('E011', 'E012', 'E013', 'E014') for c in codes) or len(d['rules']) > 1:
+            distinct.add(text)
+        if len(samples) < 3 and src != 'repo':
+            samples.append({'grammar': text, 'accepted': accepted, 'codes': codes})
+        if pid == 'C09':
+            df = textbook.compare_sets(d, g)
+            if df:
+                failures.append({'grammar': text, 'what': 'set of node %d: %s is %s but the textbook set is %s' % df[0], 'diffs': df[:5]})
+        elif pid == 'C10':
+            want = textbook.expected_conflicts(g)
+            got = sorted((x['code'], tuple((l['start'], l['end']) for l in x['labels'] if l['primary'])[0])
+                         for x in r['diags'] if x['code'] in ('E011', 'E012', 'E013', 'E014', 'E015'))
+            if want != got:
+                failures.append({'grammar': text, 'what': 'conflict verdicts differ: reported %s, definition gives %s' % (got[:5], want[:5])})
+        elif pid == 'C14':
+            if not accepted:
+                continue
+            rules_by_id = {x['id']: x['name'] for x in d['rules']}
+            used = [rules_by_id[u] for u in d['sema']['used'] if u in rules_by_id and u not in d['sema']['parts'] or
+                    (u in rules_by_id and u in d['sema']['parts'] and False)]
+            # `used` as dumped already contains the parts RecoverySetGenerator marked; recompute usage independently
+            used = independent_usage(g)
+            want = textbook.recovery_expected(g, used)
+            sets = d['sema']['sets']
+            eofs = {'EOF'} | {'EOF' + textbook.pascal(p) for p in g.parts if g.rules[p]['regex'] is not None}
+            for nid, w in want.items():
+                got = set(sets.get(str(nid), {}).get('recovery', []))
+                if got != w:
+                    failures.append({'grammar': text, 'what': 'recovery set of node %d is %s, dominator-follow definition gives %s' % (nid, sorted(got), sorted(w))})
+                    break
+                fol = set(sets.get(str(nid), {}).get('follow', []))
+                if not eofs <= (fol | got):
+                    failures.append({'grammar': text, 'what': 'loop %d: end-of-input token(s) %s neither in follow nor in recovery' % (nid, sorted(eofs - fol - got))})
+                    break
+    # ---- K2: model vs implementation
+    k2dis = []
+    k2_cap = 500 if quick else 8000
+    if len(k2_todo) > k2_cap:
+        # keep corpus/repo grammars (first in the list) and a random sample of the rest
+        head = k2_todo[:60]
+        k2_todo = head + ck.rng.sample(k2_todo[60:], k2_cap - len(head))
+    mres = k2.run_model([x[2] for x in k2_todo]) if k2_todo else []
+    for (text, r, sx, ids), m in zip(k2_todo, mres):
+        if m['r'] != 'ok':
+            k2dis.append({'grammar': text, 'what': 'model result ' + m['r']})
+            continue
+        df = k2.compare(r['dump'], r['diags'], m, ids)
+        if df:
+            k2dis.append({'grammar': text, 'what': df[0], 'all': df[:4]})
+    for f in failures[:3]:
+        ck.violation(f['what'], f)
+    if not failures:
+        broken = []
+        if proof_broken(st):
+            broken.append('proof: ' + proof_summary(st))
+        if k2dis:
+            broken.append('K2 correspondence (Sema.v vs SemanticPass): %d grammars disagree; first: %s' % (len(k2dis), json.dumps(k2dis[0])[:1500]))
+        if broken:
+            ck.violation('; '.join(broken)[:3000], {'broken': broken, 'k2': k2dis[:3]}, no_input=True)
+    nthm = len(st['theorems'])
+    ck.cov = {
+        'obligations': nthm + 1, 'discharged': (nthm if not proof_broken(st) else 0) + (0 if k2dis else 1),
+        'checker_cmd': 'make -C coq ; coqc -Q . LV Props/%s.v (Print Assumptions parsed) ; source audit grep' % pid,
+        'trusted_base': lv.TRUSTED_BASE, 'theorems': st['theorems'], 'explanation': level_text,
+        'programs': len(k2_todo), 'disagreements_checked': len(k2_todo), 'k2_disagreements': len(k2dis),
+        'evaluations': evals, 'distinct_nontrivial': len(distinct),
+        'rule': 'grammars: repo fixtures/examples, random unconstrained small grammars (recursion, hidden left recursion, nullable constructs, parts), random mostly-LL(1) grammars%s; evaluated = reduced grammars that passed name resolution; non-trivial = more than one rule or at least one LL(1) conflict, distinct by text' % ('' if quick else ', exhaustive small space'),
+        'input_kinds': dict(kinds), 'samples': samples, 'exhaustive': False,
+    }
+    ck.assumptions = ['reference sets/verdicts/dominators computed by tools/textbook.py on a BNF built from the typed view, names re-bound by name']
+    ck.finish()
+
+
+def independent_usage(g):
+    used = set()
+    todo = [g.start]
+    while todo:
+        n = todo.pop()
+        if n in used or n not in g.rules:
+            continue
+        used.add(n)
+        b = g.rules[n]['regex']
+
+        def visit(x):
+            if x['k'] == 'name' and x.get('value') and x['value'][0].islower():
+                todo.append(x['value'])
+            for c in (x.get('ops') or []):
+                visit(c)
+            if x.get('op') is not None:
+                visit(x['op'])
+        if b is not None:
+            visit(b)
+    return used
+
+
+def check_C09(work, args):
+    analysis_check(work, 'C09', 'first/follow/predict: Coq model of LL1Validator (Sema.v) tied by K2; reference = textbook sets on an independent BNF')
+
+
+def check_C10(work, args):
+    analysis_check(work, 'C10', 'LL(1) conflicts: Coq model of LL1Validator::check tied by K2; reference verdicts from the definition with textbook sets')
+
+
+def check_C14(work, args):
+    analysis_check(work, 'C14', 'recovery sets: Coq model of RecoverySetGenerator tied by K2; reference = brute-force dominators on an independent graph')
